@@ -17,7 +17,7 @@ func main() {
 	r := drv.NewRand(cfg.Seed)
 	w := emit.NewWriter(cfg.Out, "C04_spec", 0, cfg.Only)
 	n := cfg.Count(240, 4000)
-	p := c04_hist.Profile{MaxOps: 12, MaxFlows: 2, MaxRefresh: 1, OfflinePct: 50, CodeAttacks: 60, RefreshOff: 6, RefreshAtk: 30, FlowMutation: 30, FaultPct: 25, DropPct: 6, HintPct: 25}
+	p := c04_hist.Profile{MaxOps: 12, MaxFlows: 2, MaxRefresh: 1, OfflinePct: 50, CodeAttacks: 60, RefreshOff: 6, RefreshAtk: 30, FlowMutation: 30, FaultPct: 25, DropPct: 6, HintPct: 25, ROPct: 30, KeepPct: 12, TwinPct: 12, OmitPct: 12}
 	if !cfg.Quick {
 		p.MaxOps, p.MaxFlows, p.MaxRefresh = 40, 4, 2
 	}
@@ -30,7 +30,7 @@ func main() {
 		w.Add(h.Case())
 	}
 	err := w.Close(emit.Meta{Property: "C04", Tier: cfg.Tier, Seed: cfg.Seed,
-		Rule: "one case = one history over a fresh provider (5 clients: basic, post, 2 public, private_key_jwt; S256/plain/no challenge): 1..N flows authorize->login->callback->exchange(->refresh), interleaved, with mutations (early/second callback, skipped login, relogin, cross-client, wrong/missing secret, bad assertion, wrong/missing/foreign/unknown code, wrong/missing redirect_uri, wrong/missing/superfluous verifier, replay), per history all-Provider, all-Legacy or mixed per operation. Non-trivial = the model's history contains a token response or a refusal beyond the first guards (path class != 0); distinct = distinct (input hash, path class).",
+		Rule: "one case = one history over a fresh provider (5 clients: basic, post, 2 public, private_key_jwt; S256/plain/no challenge): 1..N flows authorize->login->callback->exchange(->refresh), interleaved, with mutations (early/second callback, skipped login, relogin, cross-client, wrong/missing secret, bad assertion, wrong/missing/foreign/unknown code, wrong/missing redirect_uri, wrong/missing/superfluous/near-miss verifier, replay), ~30% of the authorization requests with a signed Request Object (PKCE parameters inside the object with method S256 / plain / absent, object superseding or completing the query member by member, also nonce / redirect_uri / scope; objects that do not verify; RequestObjectSupported off in 1/16), twin flows (two requests of one client, the first code presented with credentials / verifier / redirect_uri omitted right after the exchange of the second on the same router), rotating or non-rotating refresh storage, per history all-Provider, all-Legacy or mixed per operation. Non-trivial = the model's history contains a token response or a refusal beyond the first guards (path class != 0); distinct = distinct (input hash, path class).",
 	})
 	if err != nil {
 		fmt.Fprintln(os.Stderr, err)
